@@ -172,26 +172,30 @@ Proof. unfold marker, ascii. repeat constructor. Qed.
 Lemma marker_nonempty : marker <> [].
 Proof. discriminate. Qed.
 
-Lemma js_decode_search l : contains marker (js_decode l) = contains marker l.
+Lemma contains_strip_bom m us : m <> [] -> Forall ascii m -> contains m (strip_bom us) = contains m us.
 Proof.
-  unfold js_decode. apply contains_decode.
-  - discriminate.
-  - repeat constructor. unfold high. lia.
-  - exact marker_nonempty.
-  - exact marker_ascii.
-  - apply Inv_d0.
+  intros Hm Ha. destruct us as [|u r]; [reflexivity|]. cbn [strip_bom].
+  destruct (u =? 65279) eqn:E; [|reflexivity].
+  symmetry. apply contains_skip_high; auto. unfold high. lia.
 Qed.
 
 (* the same for any ASCII needle (String.includes after TextDecoder.decode) *)
 Lemma js_decode_search_any m l : m <> [] -> (forall c, In c m -> c < 128) ->
   contains m (js_decode l) = contains m l.
 Proof.
-  intros Hm Ha. unfold js_decode. apply contains_decode.
+  intros Hm Ha. apply Forall_forall in Ha. unfold js_decode.
+  rewrite contains_strip_bom by assumption. apply contains_decode.
   - discriminate.
   - repeat constructor. unfold high. lia.
   - exact Hm.
-  - apply Forall_forall. exact Ha.
+  - exact Ha.
   - apply Inv_d0.
+Qed.
+
+Lemma js_decode_search l : contains marker (js_decode l) = contains marker l.
+Proof.
+  apply js_decode_search_any; [exact marker_nonempty|].
+  apply Forall_forall. exact marker_ascii.
 Qed.
 
 (* ---------- the three detectors ---------- *)
